@@ -53,7 +53,8 @@ def eval (F : Facts) : List String → Option String
       | "none" => some Special.none | "refused" => some Special.refused
       | "stall" => some Special.stall | "reset" => some Special.reset | _ => none)
     let (ok, t) := exchange mf p T 0 sp as
-    some s!"{if ok then "ok" else "err"} {timeClass T t} requests=1"
+    -- (a client with a timeout of zero: whether the request still gets out is not specified)
+    some s!"{if ok then "ok" else "err"} {timeClass T t} requests={if T = 0 then "-" else "1"}"
   | ["lock", "tcp-same-endpoint-twice"] =>
     -- kernel rule (not the library's): a TCP 4-tuple closed by the client stays in TIME_WAIT, a second
     -- connection from the same fixed source port to the same endpoint is refused
@@ -106,6 +107,7 @@ def judgeDrv (e : String) (impl : List String) (strayFirst : Bool := false) : St
     let cs : List String :=
       (if io = eo then []
        else if io = "ok" ∨ io = "wrong-result" then [s!"C03 the call reported a result ({io}) on the basis of a datagram it must not accept; expected: {e}"]
+       else if io = "hung" then [s!"C09 the call did not return; expected: {e}"]
        else [s!"C09 the call failed ({io}) although an acceptable reply arrived before its deadline; expected: {e}"] ++
             (if strayFirst then [s!"C03 the call failed ({io}) instead of skipping the datagrams it must not accept and waiting for the reply that followed; expected: {e}"] else [])) ++
       (if it = et then [] else [s!"C09 the call returned in time class {it}; expected: {e}"]) ++
